@@ -1,6 +1,6 @@
 CONSTANTS Depth = 1
  Leaves = {"int"}
- Ctors = {"ptr", "slice", "array3", "array0", "chan", "mapS", "mapK", "struct1", "struct2"}
+ Ctors = {"ptr", "slice", "array3", "array0", "chan", "mapS", "mapK", "struct1", "struct2", "struct3"}
  Targets = {"fixt", "fixt2", "clash-pre"}
  Views = {"types"}
 INIT JInit
